@@ -161,13 +161,38 @@ CARRIERS = {
 }
 
 
+# boundary and special spellings per datatype, longer than the exhaustive bound: judged in every run
+BOUNDARY = {
+    "B": ["c,127", "c,128", "c,-128", "c,-129", "C,255", "C,256", "C,-1", "C,0", "s,32767", "s,32768", "s,-32768", "s,-32769",
+          "S,65535", "S,65536", "i,2147483647", "i,2147483648", "i,-2147483648", "i,-2147483649", "I,4294967295",
+          "I,4294967296", "I,-1", "c,1,128,2", "C,1,256", "f,1e38", "f,-1.5e-5", "f,1e400", "f,nan", "f,inf", "c,1.0", "C,+5",
+          "C,-0", "i,0x10", "f,.5", "f,5.", "c,", "c,,1", "Q,1", "c"],
+    "J": ["[NaN]", "[Infinity]", "[-Infinity]", "{\"a\":NaN}", "[1e999]", "[1,]", "{\"a\":1,}", "[01]", "['a']", "[true]",
+          "[null]", "{\"a\":{\"b\":[1,2,{\"c\":null}]}}", "[\"\\u00e9\"]", "[\"a\tb\"]", "{1:2}", "[1 2]", "[]", "{}",
+          "[[[[[[[[[[1]]]]]]]]]]"],
+    "i": ["2147483647", "-2147483648", "9223372036854775807", "9223372036854775808", "-9223372036854775809", "+0", "-0",
+          "00012", "1e3", "0x1F", "1_000", "12 ", " 12"],
+    "f": ["1e308", "1e309", "-1e309", "1e-400", "nan", "NaN", "inf", "-inf", "Infinity", "1.e5", ".5e-3", "5.", "+.5", "1e+05",
+          "1E5", "0x1p3", "1_0.0", "1,5"],
+    "H": ["00", "FF", "0a", "0G", "ABC", "ABCD", "abcd"],
+    "A": ["a", "ab", " ", "~", "\x7f"],
+    "Z": ["a b", " ", "a\tb", "\u00e9", "~!@#$%^&*()"],
+    "pos2": ["0", "10", "10$", "0$", "$", "10$$", "-1", "+1", "1e1", "010"],
+    "slen": ["0", "10", "010", "+10", "-10", "10$", "1e1"],
+    "cigar1": ["10M", "0M", "1M1M", "1=1X1N1S1H1P", "M", "1", "1m", "1M,", "*", "**", "1*"],
+    "aln2": ["10M", "1=", "1X", "1N", "1S", "1H", "1P", "1,2,3", "1,,2", "1,2,", "0", "*", "1M2"],
+}
+
+
 def short_strings(kind, maxlen):
     al = ALPHABETS[kind]
     for n in range(0, maxlen + 1):
         for t in itertools.product(al, repeat=n):
             yield "".join(t)
+    for s in BOUNDARY.get(kind, ()):
+        yield s
 
 
 def n_short_strings(kind, maxlen):
     a = len(ALPHABETS[kind])
-    return sum(a ** n for n in range(0, maxlen + 1))
+    return sum(a ** n for n in range(0, maxlen + 1)) + len(BOUNDARY.get(kind, ()))
